@@ -159,8 +159,20 @@ def s3_s4(ctx):
         for node in sx.walk(bk.item['body']):
             if node.get('k') == 'match':
                 for arm in node['arms']:
-                    if arm['pat'].get('k') == 'lit' and sx.lit_str(arm['pat']['e']) is not None:
+                    # a literal counts as "pushes exactly once" only when the arm body IS the push, unconditionally
+                    # (any other shape keeps the conservative effect {0, +1} for every call)
+                    b_ = arm['body']
+                    direct = b_.get('k') == 'mcall' and b_['m'] == 'push' and len(b_['args']) == 1 and \
+                        sx.is_path(b_['args'][0]) and b_['args'][0]['p'].startswith('Version::')
+                    if arm['pat'].get('k') == 'lit' and sx.lit_str(arm['pat']['e']) is not None and direct:
                         lits.add(sx.lit_str(arm['pat']['e']))
+        # ... and only when that match is the whole body of the `with` closure (no surrounding condition)
+        ok_shape = False
+        for node in sx.walk(bk.item['body']):
+            if node.get('k') == 'closure' and node['body'].get('k') == 'match':
+                ok_shape = True
+        if not ok_shape:
+            lits = set()
     # exception table by role
     vs_owner = None
     ek_owner = None
@@ -577,3 +589,44 @@ def s5_s7(ctx):
 
 def run(ctx):
     return s1_s2(ctx) + s3_s4(ctx) + s5_s7(ctx)
+
+
+# ------------------------------------------------------------------------- S5 over the dependency closure (thorough tier)
+DEP_STATIC_OK = [
+    (r'^memchr::.*::FN$', r'Atomic', 'memchr: idempotent CPU-feature dispatch cache (every thread computes and stores the same function pointer)'),
+]
+
+
+def s5_deps(ctx):
+    """Statics and process-global effects of every non-proc-macro crate linked into a user of sv-parser."""
+    r = RuleResult('S5d', 'no shared mutable state / process-global effect in the runtime dependency closure')
+    facts = ctx.facts.mir_deps()
+    m = Mir(facts)
+    r.inst('closure', {'crates': sorted(facts)})
+    for s in m.statics:
+        ok = s['thread_local'] or (not s['mut'] and s['freeze'])
+        why = None
+        if not ok:
+            for cp, tp, reason in DEP_STATIC_OK:
+                if re.match(cp, s['path']) and re.search(tp, s['ty']):
+                    ok, why = True, reason
+        r.inst('static:' + s['path'], {'static': s['path'], 'ty': s['ty'][:60], 'thread_local': s['thread_local'], 'allowed_because': why}
+               if (why or s['thread_local']) else None)
+        if not ok:
+            r.fail('%s:shared-static:%s' % (s['crate'], s['path']), '%s:%s' % (s['file'], s['line']),
+                   'dependency static %s: %s is shared between threads and mutable (mut=%s, interior mutability=%s) and not in the audited '
+                   'allow-list' % (s['path'], s['ty'], s['mut'], not s['freeze']))
+    n = 0
+    for crate, bodies in m.by_crate.items():
+        for b in bodies:
+            for c in b.calls:
+                n += 1
+                if c.callee is None:
+                    continue
+                for pat, why in FORBIDDEN_CALLS[:6]:
+                    if re.match(pat, c.callee):
+                        r.fail('%s:%s:global-effect:%s' % (crate, b.name, c.callee), '%s:%s' % (b.file, c.line), '%s calls %s, which %s' % (b.name, c.callee, why))
+    r.counts['call_sites_scanned'] = n
+    r.floor('runtime_crates', len(facts), 12)
+    r.floor('call_sites_scanned', n, 60000)
+    return r
